@@ -19,12 +19,27 @@ class NetValueError(ValueError):
 
 
 # ------------------------------------------------------------------ classes
+class _ClassLoop(list):
+    """The protocol classes; iterating sets paths.CURRENT_SELF_CLS to the class being looked at (and clears it afterwards)."""
+
+    def __iter__(self):
+        from .. import paths
+        prev = paths.CURRENT_SELF_CLS[0]
+        try:
+            for c in list.__iter__(self):
+                paths.CURRENT_SELF_CLS[0] = c
+                yield c
+        finally:
+            paths.CURRENT_SELF_CLS[0] = prev
+
+
 def proto_classes(ctx: Ctx) -> List[ClassInfo]:
     base = ctx.prog.cls("InverterProtocol")
-    out = [c for c in ctx.prog.all_subclasses(base, include_self=False) if "send_request" in c.methods]
+    out = [c for c in ctx.prog.all_subclasses(base, include_self=False) if ctx.prog.find_method(c, "send_request") is not None
+           and ctx.prog.find_method(c, "send_request").cls is not base]
     if len(out) < 2:
         raise AnalysisError("expected the UDP and TCP protocol classes, found %s" % [c.name for c in out])
-    return out
+    return _ClassLoop(out)
 
 
 def method(ctx: Ctx, ci: ClassInfo, name: str) -> FuncInfo:
@@ -58,6 +73,18 @@ def loop_callbacks(ctx: Ctx, ci: Optional[ClassInfo] = None) -> List[FuncInfo]:
                         if t is not None and t not in out:
                             out.append(t)
     return out
+
+
+def only_reached_from(ctx: Ctx, fn: FuncInfo, allowed, depth: int = 0) -> bool:
+    """fn is one of *allowed*, or a helper outside the pinned inventory all of whose call sites lie (transitively) in
+    such functions - a statement moved into an extracted helper keeps the calling context of the place it came from."""
+    from ..inventory import is_known
+    if fn in allowed:
+        return True
+    if depth > 4 or is_known(fn, ctx.prog):
+        return False
+    callers = ctx.res.callers_of(fn)
+    return bool(callers) and all(only_reached_from(ctx, ct.caller, allowed, depth + 1) for ct in callers)
 
 
 # --------------------------------------------------------------------- tags
@@ -332,7 +359,8 @@ def _ise_feasible(ctx: Ctx, p: Path) -> bool:
 
 def protocol_paths(ctx: Ctx, fn: FuncInfo) -> List[Path]:
     """Feasible paths of a protocol function under the network oracle."""
-    key = "ppaths:" + fn.qualname
+    from .. import paths as _paths
+    key = "ppaths:%s:%s" % (fn.qualname, _paths.CURRENT_SELF_CLS[0].name if _paths.CURRENT_SELF_CLS[0] is not None else "")
     def build():
         mr = net_mayraise(ctx)
         extra = _callback_oracle(ctx)
